@@ -330,3 +330,27 @@ def twin_caller(callee_name, argsig, retsig, cname, rng):
     if retsig.startswith("Tuple[bool") or retsig.startswith("Qlist[bool"):
         return f"def {cname}({sig}) -> bool:\n    r = {call}\n    return r[0] and not r[1]\n"
     return f"def {cname}({sig}) -> bool:\n    r = {call}\n    return r[0] == r[1]\n"
+
+
+# ---------------------------------------------------------------- literal twins
+# programs whose literals are equal as Python values but differently typed (1 / 1.0 / True, 3 / 3.0)
+LITERAL_TWINS = [
+    "def {n}(a: Qfixed[1,2]) -> bool:\n    return a == 1.0\n",
+    "def {n}(a: Qfixed[1,2]) -> bool:\n    return a == 0.0\n",
+    "def {n}(a: Qint[4]) -> bool:\n    return a > 3\n",
+    "def {n}(a: Qint[2]) -> bool:\n    return a == 2\n",
+    "def {n}(a: bool) -> Qfixed[2,2]:\n    return 3.0 if a else 1.0\n",
+    "def {n}(a: bool) -> Qint[2]:\n    return 3 if a else 0\n",
+    "def {n}(a: Qfixed[1,3]) -> Qfixed[1,3]:\n    return a + 1.0\n",
+    "def {n}(a: Qint[2]) -> Qint[2]:\n    return a + 1\n",
+    "def {n}(a: Qfixed[2,2]) -> bool:\n    return a > 2.0\n",
+    "def {n}(a: Qint[2], b: bool) -> bool:\n    return (a == 1) ^ (b == True)\n",
+]
+
+
+def literal_twin(rng, name):
+    src = rng.choice(LITERAL_TWINS).format(n=name)
+    fd = ast.parse(src).body[0]
+    meta = {"id": "littwin", "nargs": len(fd.args.args), "in_bits": 4, "ret_bool": ast.unparse(fd.returns) == "bool",
+            "argsig": [[a.arg, ast.unparse(a.annotation)] for a in fd.args.args], "retsig": ast.unparse(fd.returns), "t": 0.01, "outcome": "ok"}
+    return src, meta
